@@ -23,7 +23,7 @@ impl Prop for C12 {
         "exploration"
     }
     fn rule(&self) -> String {
-        "run kinds. lib: seeded valid writer history (any interleaving, all layer sets; one run in twelve with 65..300 files of which 1-3 stay open across dozens of others; now and then 17..1000 recipients) written by the library, then linear_extract into a seeded subset of the names (empty, one, some, all, plus a name that is not in the archive), each chosen name with its own simulated sink under a seeded transfer schedule (1 byte, 1..n, Interrupted bursts): every chosen sink must hold exactly the model's bytes for that name (= what get_file returns, C01/C10), nothing else exists to receive data, the result is Ok. nomark / cutblock: the format model's foreign writer builds an archive (all layer sets) whose index is intact but whose block stream has no end-of-data marker, or is cut inside a content block - two times in three so that the byte right before the index, where the marker should be, is FE / 00 / 01 / FF (for a missing marker: a tiny last file whose SHA-256 ends with that byte); at production constants half of these runs put 4..7 MiB of a file that is not chosen after the small chosen one -: the archive opens, and linear_extract must return Err (the model first checks that the bytes following the blocks cannot be mistaken for a marker). sinkfail: the first chosen sink fails at its k-th write: the result must be Err. distinct_nontrivial = distinct (kind, variant, layers, subset class, interleaved, sink schedule kind, outcome) signatures.".into()
+        "run kinds. lib: seeded valid writer history (any interleaving, all layer sets; one run in twelve with 65..300 files of which 1-3 stay open across dozens of others; now and then 17..1000 recipients) written by the library (one scaled run in eight: the same files in an archive of the independent writer, with its own ids, index form and empty blocks), then linear_extract into a seeded subset of the names (empty, one, some, all, plus a name that is not in the archive), each chosen name with its own simulated sink under a seeded transfer schedule (1 byte, 1..n, Interrupted bursts): every chosen sink must hold exactly the model's bytes for that name (= what get_file returns, C01/C10), nothing else exists to receive data, the result is Ok. nomark / cutblock: the format model's foreign writer builds an archive (all layer sets) whose index is intact but whose block stream has no end-of-data marker, or is cut inside a content block - two times in three so that the byte right before the index, where the marker should be, is FE / 00 / 01 / FF (for a missing marker: a tiny last file whose SHA-256 ends with that byte); at production constants half of these runs put 4..7 MiB of a file that is not chosen after the small chosen one -: the archive opens, and linear_extract must return Err (the model first checks that the bytes following the blocks cannot be mistaken for a marker). sinkfail: the first chosen sink fails at its k-th write: the result must be Err. distinct_nontrivial = distinct (kind, variant, layers, subset class, interleaved, sink schedule kind, outcome) signatures.".into()
     }
     fn assumptions(&self) -> Vec<String> {
         vec!["archives with an early or duplicated marker, reused ids or other hostile shapes are C08 inputs, not C12 ones".into()]
@@ -72,6 +72,9 @@ impl Prop for C12 {
             _ => rng.below(64) as i64,
         } });
         case.params.insert("far_tail".into(), i64::from(far_tail));
+        if !big && (mode == M_LIB || mode == M_SINKFAIL) && rng.chance(1, 8) {
+            case.params.insert("foreign".into(), 1);
+        }
         case.params.insert("extra_name".into(), i64::from(!far_tail && rng.chance(1, 4)));
         case.params.insert("plan_seed".into(), (rng.u64() >> 1) as i64);
         case.params.insert("fail_call".into(), rng.range(0, 6) as i64);
@@ -155,6 +158,9 @@ impl Prop for C12 {
             r2.fill(&mut eph);
             let spec = refmla::EncSpec { key, nonce, eph_priv: eph, recipients: (0..case.cfg.recipients).map(|i| refmla::pub_of(&key_bytes(case.cfg.key_seed, i))).collect() };
             refmla::wrap(&stream, case.cfg.layers & 3, case.cfg.level, Some(&spec), par)
+        } else if case.param("foreign", 0) == 1 && model.order.len() == model.files.len() && model.order.iter().all(|n| n.len() <= 65536) {
+            // the same files in a complete archive of the independent writer (its own ids, index form, empty blocks...)
+            foreign_image(&case.cfg, &model, par.chunk, par.block, case.param("plan_seed", 1) as u64 ^ 0xF0)
         } else {
             let sink = SimSink::new(&Sched::Full);
             let w = s.write(&case.cfg, &case.ops, sink.clone());
